@@ -270,6 +270,14 @@ __gmp_doprnt (const struct doprnt_funs_t *funs, void *data,
             TRACE (printf ("integer, base=%d\n", param.base));
             if (! seen_precision)
               param.prec = -1;
+            else if (param.fill == '0')
+              {
+                /* as in C, a precision on an integer conversion cancels
+                   the 0 flag */
+                param.fill = ' ';
+                if (param.justify == DOPRNT_JUSTIFY_INTERNAL)
+                  param.justify = DOPRNT_JUSTIFY_RIGHT;
+              }
             switch (type) {
             case 'j':
               /* Let's assume uintmax_t is the same size as intmax_t. */
@@ -521,12 +529,19 @@ __gmp_doprnt (const struct doprnt_funs_t *funs, void *data,
             break;
 
           case '+':
-          case ' ':
             param.sign = fchar;
             break;
 
+          case ' ':
+            /* as in C, "+" overrides a space whatever their order */
+            if (param.sign != '+')
+              param.sign = fchar;
+            break;
+
           case '-':
+            /* as in C, "-" overrides the 0 flag whatever their order */
             param.justify = DOPRNT_JUSTIFY_LEFT;
+            param.fill = ' ';
             break;
           case '.':
             seen_precision = 1;
@@ -544,6 +559,7 @@ __gmp_doprnt (const struct doprnt_funs_t *funs, void *data,
                   if (n < 0)
                     {
                       param.justify = DOPRNT_JUSTIFY_LEFT;
+                      param.fill = ' ';
                       n = -n;
                     }
                   param.width = n;
@@ -559,8 +575,10 @@ __gmp_doprnt (const struct doprnt_funs_t *funs, void *data,
           case '0':
             if (value == &param.width)
               {
-                /* in width field, set fill */
-                param.fill = '0';
+                /* in width field, set fill, unless left justified: then
+                   the padding goes on the right and must be spaces */
+                if (param.justify != DOPRNT_JUSTIFY_LEFT)
+                  param.fill = '0';
 
                 /* for right justify, put the fill after any minus sign */
                 if (param.justify == DOPRNT_JUSTIFY_RIGHT)
